@@ -18,7 +18,9 @@ def limbs_in(d, s, us, off):
 
 def limbs_out(dt):
     off = dt.utcoffset()
-    utc = off is not None and off == timedelta(0)
+    # "a UTC datetime": the offset is zero not only at this instant but wherever arithmetic may take the value (a zone that
+    # merely happens to be at +00:00 now is not UTC)
+    utc = off is not None and off == timedelta(0) and all((dt + timedelta(days=k)).utcoffset() == timedelta(0) for k in (-400, 400, 183))
     return {"d": (dt.date() - E0D).days, "s": dt.hour * 3600 + dt.minute * 60 + dt.second, "us": dt.microsecond, "utc": bool(utc)}
 
 
@@ -51,11 +53,29 @@ class FoldTz(tzinfo):
         return "FOLD"
 
 
+class ZeroThisYearTz(tzinfo):
+    """a zone whose offset is +00:00 during one calendar year only (+01:00 otherwise): at the instant given it is
+    indistinguishable from UTC by its offset alone"""
+    def __init__(self, year):
+        self.year = year
+
+    def utcoffset(self, dt):
+        return timedelta(0) if dt is None or dt.year == self.year else timedelta(hours=1)
+
+    def dst(self, dt):
+        return timedelta(0)
+
+    def tzname(self, dt):
+        return "ZERO-NOW"
+
+
 def build_ts(rep, d, s, us, off):
     tz = timezone(timedelta(minutes=off))
     local = datetime(1970, 1, 1, tzinfo=tz) + timedelta(days=d, seconds=s, microseconds=us)
     if rep == "dt":
         return local
+    if rep == "dtzero":       # only meaningful for offset 0: an aware datetime in a non-UTC zone that is at +00:00 at that instant
+        return local.replace(tzinfo=ZeroThisYearTz(local.year))
     if rep == "dtfold1":      # second occurrence of the wall-clock time: the offset that applies is `off`
         return local.replace(tzinfo=FoldTz(min(off + 60, 1439), off), fold=1)
     if rep == "dtfold0":      # first occurrence
@@ -152,8 +172,8 @@ OFFS_POOL = [-840, -720, -570, -330, -60, -1, 0, 1, 60, 345, 330, 570, 765, 840]
 
 
 def rand_case(rnd, us=None, rep=None, nested=False):
-    rep = rep or rnd.choice(["dt", "iso", "iso", "isoZ", "dt", "dtfold1", "dtfold0"])
-    off = 0 if rep == "isoZ" else rnd.choice(OFFS_POOL + [rnd.randrange(-840, 841)])
+    rep = rep or rnd.choice(["dt", "iso", "iso", "isoZ", "dt", "dtfold1", "dtfold0", "dtzero"])
+    off = 0 if rep in ("isoZ", "dtzero") else rnd.choice(OFFS_POOL + [rnd.randrange(-840, 841)])
     d = rnd.choice(DAYS_POOL + [0, 0] + [rnd.randrange(0, 47482)] * 3)
     # day 0 with a positive offset is a 1970 timestamp whose instant lies before the epoch: inside the property's range
     s = rnd.choice([0, 1, 59, 3599, 43200, 86399, rnd.randrange(0, 86400)])
